@@ -79,6 +79,15 @@ func (cs c03Case) build(e *Engine, fresh *uint64) Tx {
 				m.Sender = Messenger(m.Src, 0)
 			}
 		}
+		if v%8 == 2 { // addressed to an address that is registered as a token messenger (of the local or the source domain): still not the module
+			m.Recipient = Messenger([]uint32{4, m.Src, 4, 0}[(v/8)%4], 0)
+			if (v/8)%2 == 1 {
+				m.Sender = Messenger(m.Src, 0)
+			}
+		}
+		if v%8 == 6 {
+			m.Recipient = append([]byte(nil), m.Sender...)
+		}
 		n := cs.bodyLen
 		if n == 0 {
 			n = []int{0, 5, 132, 300}[v%4]
